@@ -695,6 +695,7 @@ def function(
         if (intermediate_repr.get("returns") or {"return_type": {}})["return_type"].get(
             "default"
         )
+        not in (None, "")
         else None
     )
 
